@@ -91,7 +91,7 @@ def probes_for(spec):
 
 def grid_digest(q, probes):
   from ai_edge_quantizer import qtyping
-  rm = q._recipe_manager
+  rm = harness.recipe_manager_of(q)
   out = []
   for op, scope in probes:
     try:
